@@ -9,7 +9,10 @@ use std::sync::atomic::{AtomicUsize, Ordering};
 use std::sync::{Arc, Mutex};
 use std::time::{Duration, Instant};
 
-pub const VERIF_DIR: &str = "/verif";
+/// root of the verification tree (set by ./check; /verif by default)
+pub fn verif_dir() -> String {
+    std::env::var("VERIF_DIR").unwrap_or_else(|_| "/verif".to_string())
+}
 
 // ---------------------------------------------------------------- hashing
 
@@ -461,7 +464,7 @@ pub struct KnownEntry {
 }
 
 pub fn load_known() -> Vec<KnownEntry> {
-    let p = format!("{}/known_findings.json", VERIF_DIR);
+    let p = format!("{}/known_findings.json", verif_dir());
     let Ok(s) = std::fs::read_to_string(&p) else { return vec![] };
     let Ok(v) = serde_json::from_str::<Value>(&s) else { return vec![] };
     let mut out = vec![];
